@@ -111,6 +111,9 @@ func RunWorker(p *Prop, tier string, k, n int, trace bool, deadline time.Time) {
 			r.Incomplete = append(r.Incomplete, f.Name)
 		}
 	}
+	if p.Teardown != nil {
+		p.Teardown()
+	}
 	for s := range r.States {
 		r.StateList = append(r.StateList, s)
 	}
